@@ -77,6 +77,39 @@ def run(ck, ix, tier):
             lit = m.group(1) if m else None
             ck.check(lit is not None and Decimal(lit) == Decimal(e["digits"]), "G-DATA", key + "|digits", FILES, f"{name} = {lit}",
                      f"{name} is written as {lit} in the file; {e['source']} gives {e['digits']}")
+            if "dims" in e:
+                dims = {k: Fraction(x) for k, x in d.dimensionality(name).items()}
+                wdims = {k: Fraction(x) for k, x in e["dims"].items()}
+                ck.check(dims == wdims, "G-DATA", key + "|dimensionality", FILES, f"dimensionality {e['dims']}", f"{name} has dimensionality { {k: str(x) for k, x in dims.items()} } in the file, standard: {e['dims']}")
+            continue
+        if kind == "approx":
+            v = d.value_of(name)
+            si = v.f * Fraction(1, 1000) ** v.dims.get("gram", 0)
+            want = Fraction(e["value"])
+            tol = Fraction(e["rel_tol"])
+            ck.check(abs(si - want) <= tol * abs(want), "G-DATA", key + "|value", FILES, f"{name} = {e['value']} (SI) within {e['rel_tol']}",
+                     f"{name} evaluates to {float(si)!r} (SI) from the file's formula; the standard value is {e['value']} (relative tolerance {e['rel_tol']}) [{e['source']}]")
+            dims = {k: Fraction(x) for k, x in d.dimensionality(name).items()}
+            wdims = {k: Fraction(x) for k, x in e["dims"].items()}
+            ck.check(dims == wdims, "G-DATA", key + "|dimensionality", FILES, f"dimensionality {e['dims']}", f"{name} has dimensionality { {k: str(x) for k, x in dims.items()} } in the file, standard: {e['dims']}")
+            if e.get("symbol"):
+                sym = rec["symbol"] or name
+                ck.check(sym in e["symbol"], "G-DATA", key + "|symbol", FILES, f"symbol {sym}", f"{name} has symbol `{sym}` in the file, standard symbol {e['symbol']} ({e['source']})")
+            continue
+        if kind == "log_unit":
+            v = d.value_of(name)
+            si = v.f * Fraction(1, 1000) ** v.dims.get("gram", 0)
+            ck.check(si == Fraction(e["si"]), "G-DATA", key + "|reference", FILES, f"reference {e['si']}", f"{name} has reference level {si} (SI) in the file; standard: {e['si']}")
+            lb_, lf_ = d.modifier_number(name, "logbase"), d.modifier_number(name, "logfactor")
+            if e["logbase"] == "e":
+                okb = lb_ is not None and abs(lb_ - Fraction("2.718281828459045235360287471352662497757")) < Fraction(1, 10 ** 30)
+            else:
+                okb = lb_ == Fraction(e["logbase"])
+            ck.check(okb, "G-DATA", key + "|logbase", FILES, f"logbase {e['logbase']}", f"{name} has logbase {float(lb_) if lb_ is not None else None} in the file; standard: {e['logbase']}")
+            ck.check(lf_ == Fraction(e["logfactor"]), "G-DATA", key + "|logfactor", FILES, f"logfactor {e['logfactor']}", f"{name} has logfactor {lf_} in the file; standard: {e['logfactor']} ({e['source']})")
+            if e.get("symbol"):
+                sym = rec["symbol"] or name
+                ck.check(sym in e["symbol"], "G-DATA", key + "|symbol", FILES, f"symbol {sym}", f"{name} has symbol `{sym}` in the file, standard symbol {e['symbol']}")
             continue
         v = d.value_of(name)
         g = v.dims.get("gram", 0)
